@@ -85,6 +85,7 @@ class TestSolver : public SQuIDS {
     return M_LN2 * tab_ss(ei, is);
   }
   void PreDerive(double t) override { calls.push_back({"PreDerive", -1, -1, t}); }
+  void set_mix(double th) { params.SetMixingAngle(0, 1, th); }
   void fill_initial() {
     for (unsigned ei = 0; ei < nx; ei++) {
       for (unsigned i = 0; i < nrhos; i++) {
@@ -213,6 +214,37 @@ int main() {
         printf("EVOLVEX %d\n", threw ? 1 : 0);
       } else if (cmd == "GETCTL") { in >> o; TestSolver& s = S(o - 1);
         printf("GETCTL %.17g %.17g %.17g %.17g\n", s.Get_h(), s.Get_h_min(), s.Get_h_max(), s.Get_t());
+      } else if (cmd == "CFG") {       // CFG o field code : one configuration setter of module SolverCfg (codes -> concrete values here)
+        std::string f; int c; in >> o >> f >> c; TestSolver& s = S(o - 1);
+        auto pick = [&](double d0, double v1, double v2, double v9) { return c == 0 ? d0 : c == 1 ? v1 : c == 2 ? v2 : v9; };
+        if (f == "h") s.Set_h(pick(1e-3, std::ldexp(1.0, -4), std::ldexp(1.0, -6), std::ldexp(1.0, -8)));
+        else if (f == "hmin") { if (c) s.Set_h_min(pick(0, std::ldexp(1.0, -30), std::ldexp(1.0, -40), std::ldexp(1.0, -50))); }
+        else if (f == "hmax") { if (c) s.Set_h_max(pick(0, 8, 16, 32)); }
+        else if (f == "rel") s.Set_rel_error(pick(1e-10, 1e-8, 1e-9, 1e-7));
+        else if (f == "abs") s.Set_abs_error(pick(1e-10, 1e-8, 1e-9, 1e-7));
+        else if (f == "nsteps") s.Set_NumSteps((unsigned)pick(1000, 64, 80, 96));
+        else if (f == "adaptive") s.Set_AdaptiveStep(c != 0);
+        else if (f == "stepper") s.Set_GSL_step(c == 0 ? gsl_odeiv2_step_rkf45 : c == 1 ? gsl_odeiv2_step_rk4 : c == 2 ? gsl_odeiv2_step_rk8pd : gsl_odeiv2_step_rkck);
+        else if (f == "sw1") s.Set_CoherentRhoTerms(c != 0);
+        else if (f == "sw2") s.Set_NonCoherentRhoTerms(c != 0);
+        else if (f == "sw3") s.Set_OtherRhoTerms(c != 0);
+        else if (f == "sw4") s.Set_GammaScalarTerms(c != 0);
+        else if (f == "sw5") s.Set_OtherScalarTerms(c != 0);
+        else if (f == "mix") s.set_mix(pick(0, 0.3, 0.5, 0.7));
+        else if (f == "grid") { if (c == 1) s.Set_xrange(1, 2, "lin"); else if (c == 2) s.Set_xrange(1, 4, "log"); else if (c == 9) s.Set_xrange(3, 7, "lin"); }
+        else throw std::runtime_error("bad field");
+      } else if (cmd == "GETCFG") { in >> o; TestSolver& s = S(o - 1);
+        printf("GETCFG %.17g %.17g %.17g %.17g %.17g %.17g %u %u %u %.17g %.17g %.17g", s.Get_h(), s.Get_h_min(), s.Get_h_max(), s.Get_rel_error(), s.Get_abs_error(),
+               (double)s.Get_NumSteps(), s.Get_nx(), s.Get_nrhos(), s.Get_nscalars(), s.Get_t(), s.Get_t_initial(), s.GetParams().GetMixingAngle(0, 1));
+        for (double xv : s.Get_xrange()) printf(" %.17g", xv);
+        printf("\n");
+      } else if (cmd == "EVOLVEN") {   // EVOLVEN o dt4 : Evolve, report refusal and the number of right-hand sides
+        long dt4; in >> o >> dt4; TestSolver& s = S(o - 1);
+        calls.clear(); cur.open = false; cur.nrhs = 0; cur.first_at_sys = true;
+        bool threw = false;
+        try { s.Evolve(dt4 / 4.0); } catch (std::exception& e) { threw = true; }
+        flush_rhs(); calls.clear();
+        printf("EVOLVEN %d %ld %.17g\n", threw ? 1 : 0, cur.nrhs, s.Get_t());
       } else if (cmd == "TDEP") { int b; in >> o >> b; S(o - 1).tdep = b;
       } else if (cmd == "HMIN") { double x; in >> o >> x; S(o - 1).Set_h_min(x);
       } else if (cmd == "SCALE") { int e2; in >> o >> e2; S(o - 1).scale_state(std::ldexp(1.0, e2));
